@@ -70,14 +70,14 @@ CLAIMED.update({
 CLAIMED.update({
     "C05": ("Coq proof (atom-string emitters + sign clean-up + maximal-munch lexer + precedence parser evaluated symbolically; 64 sign/zero classes x every gas-phase type discharged by computation and ring reasoning over R, for all magnitudes and all interpretations of the library functions) + exact-text correspondence + tokenizer / g++ / numeric-law oracle",
             "Theorems in Props/C05.v: for KIDA formulae 1-5, UMIST two-body / photo / cosmic-ray proton / cosmic-ray photon, Leeds types 1-4, 11, 12 (with self-shielding), UCLCHEM two-body / cosmic ray / cosmic-ray photon / photo (with the CO special case) and the native types, the emitted text - after the sign clean-up, lexed with C's maximal munch and parsed with C precedence - denotes the database's law for every value of |alpha|, |beta|, |gamma|, each of the 4x4x4 sign/zero classes (+, -, 0.0, -0.0) and every value of temperature, extinction, ionisation rate ... (any interpretation with pow(x,0)=1, exp(0)=1, in particular the real functions); formula 6 and unknown codes are refused; every emitted string parses and holds no fused operator. The type codes and the presence of the clean-up in the native class are regenerated from /repo. Tied to rateexpr() by exact comparison of the text for all classes and several magnitude shapes.",
-            "The bridge between Python's str.replace on characters and the model's replace on atom strings (valid when a magnitude has no two adjacent signs and is fenced by digits) is sampled by the exact-text correspondence, not proved; the reference laws are a transcription; inf/nan coefficients excluded; floating-point evaluation is outside the theorems (numeric oracle uses a relative tolerance).",
+            "The bridge between Python's str.replace on characters and the model's replace on atom strings is proved (beautify_bridge) under a decidable premise on the atoms that the extracted model evaluates for every magnitude sent; the reference laws are a transcription; inf/nan coefficients excluded; floating-point evaluation is outside the theorems (numeric oracle uses a relative tolerance).",
             "7 C05"),
 })
 
 CLAIMED.update({
     "C11": ("Coq proof (atom-string emitters of the four dust models with opaque identifier and magnitude atoms, C lexer/parser with ternaries, relations and subscripts, symbolic evaluation and ring reasoning over R) + exact-text correspondence over models x processes x formats x classes x species x groups + compiled-expression oracle",
             "Theorems in Props/C11.v: for accretion (base, HH93, RR07 neutral/ion/electron), thermal / photo / cosmic-ray / H2-formation desorption, grain recombination, electron capture, surface two-body reactions (four tunnelling variants) and reactive desorption, the emitted text - after the reaction class's sign clean-up - denotes the dust model's formula for every |alpha| and each of its four sign/zero classes, every printed mass number, binding energy and yield of the reacting species, and every value of the physical parameters, whatever names the reaction format and the grain group give the registry symbols; every emitted string is valid C; exactly the (model, process) pairs the live dispatch table marks NotImplemented are refused; the binding-energy look-up order is explicit > user table > RATE12. Tied to reac.rateexpr(grain) by exact comparison of the text.",
-            "Reference formulae are a transcription of Hasegawa & Herbst (1993) / UCLCHEM 1.3; symbols a reaction format does not register raise AttributeError (counted as refusal); electron accretion outside RR07 divides by a zero mass number (reference skipped); str.replace bridge as in C05.",
+            "Reference formulae are a transcription of Hasegawa & Herbst (1993) / UCLCHEM 1.3; symbols a reaction format does not register raise AttributeError (counted as refusal); electron accretion outside RR07 divides by a zero mass number (reference skipped); str.replace bridge proved in C05 (beautify_bridge), premise evaluated per case.",
             "7 C11"),
 })
 
